@@ -1000,3 +1000,126 @@ pub fn render_program(p: &Program, layout_bytes: &[u8], free: bool) -> Vec<Rende
     let mut lay = if free { Layout::free(layout_bytes) } else { Layout::canonical() };
     p.files.iter().enumerate().map(|(i, f)| render_file(f, i, &mut lay)).collect()
 }
+
+// ------------------------------------------------------------------------------------------
+// Preprocessor blocks between definitions (C09: "rows after a removed preprocessor block")
+// ------------------------------------------------------------------------------------------
+
+/// Inserts whole preprocessor lines in front of top-level definitions that start their line
+/// (`#if NOPE` ... `#endif` around junk, `#define`, a selected `#if !NOPE` / `#else` region around the
+/// definition) and shifts every recorded position by the number of lines inserted above it.  The
+/// directives are indented independently of the line that follows them.  `choices` drives the
+/// selection; returns the number of blocks inserted.
+pub fn insert_preprocessor_blocks(r: &mut Rendered, choices: &[u8]) -> usize {
+    if choices.is_empty() {
+        return 0;
+    }
+    let lines: Vec<String> = r.text.split('\n').map(|s| s.to_owned()).collect();
+    // candidate rows: the first thing of a top-level definition (doc comment, attribute or keyword)
+    // with nothing but white space before it on its line
+    let mut rows: Vec<usize> = Vec::new();
+    for (path, e) in &r.elems {
+        if path.matches('/').count() != 1 || !path.contains("/d") {
+            continue;
+        }
+        let mut first = r.tok_start(e.prelude_first.unwrap_or(e.first).min(e.first));
+        if let Some(d) = r.docs.get(path).and_then(|d| d.first()) {
+            first = first.min(d.slashes);
+        }
+        let Some(line) = lines.get(first.0 - 1) else { continue };
+        let before: String = line.chars().take(first.1 - 1).collect();
+        if before.chars().all(char::is_whitespace) && first.0 >= 2 {
+            rows.push(first.0);
+        }
+    }
+    rows.sort();
+    rows.dedup();
+    if rows.is_empty() {
+        return 0;
+    }
+    const INDENT: [&str; 4] = ["", "  ", "\t", "      "];
+    let mut ci = 0usize;
+    let mut next = |n: usize| -> usize {
+        let b = choices[ci % choices.len()] as usize;
+        ci += 1;
+        (b * n) >> 8
+    };
+    // lines inserted before a given original row
+    let mut inserts: BTreeMap<usize, Vec<String>> = BTreeMap::new();
+    let mut open = false;
+    let mut blocks = 0;
+    for row in &rows {
+        let v = inserts.entry(*row).or_default();
+        if open {
+            v.push(format!("{}#endif // close", INDENT[next(4)]));
+            open = false;
+        }
+        let ind = INDENT[next(4)];
+        match next(8) {
+            0 | 1 => {
+                v.push(format!("{ind}#if NOPE"));
+                v.push("\tjunk é { that is never parsed".to_owned());
+                v.push(format!("{ind}#endif"));
+                blocks += 1;
+            }
+            2 => {
+                v.push(format!("{ind}#define FOO{blocks}"));
+                blocks += 1;
+            }
+            3 => {
+                v.push(format!("{ind}#if !NOPE"));
+                open = true;
+                blocks += 1;
+            }
+            4 => {
+                v.push(format!("{ind}#if NOPE && OTHER"));
+                v.push("struct Hidden {}".to_owned());
+                v.push(format!("{ind}#else"));
+                open = true;
+                blocks += 1;
+            }
+            _ => {}
+        }
+    }
+    if blocks == 0 {
+        return 0;
+    }
+    let mut out: Vec<String> = Vec::new();
+    let mut shift: Vec<usize> = vec![0; lines.len() + 2]; // shift[row] for 1-based rows
+    let mut added = 0usize;
+    for (i, line) in lines.iter().enumerate() {
+        let row = i + 1;
+        if let Some(v) = inserts.get(&row) {
+            for l in v {
+                out.push(l.clone());
+                added += 1;
+            }
+        }
+        shift[row] = added;
+        out.push(line.clone());
+    }
+    let mut text = out.join("\n");
+    if open {
+        if !text.ends_with('\n') {
+            text.push('\n');
+        }
+        text.push_str("#endif");
+    }
+    let sh = |p: Pos| -> Pos { (p.0 + shift.get(p.0).copied().unwrap_or(added), p.1) };
+    for t in &mut r.toks {
+        t.start = sh(t.start);
+        t.end = sh(t.end);
+    }
+    for d in r.docs.values_mut() {
+        for l in d {
+            l.slashes = sh(l.slashes);
+            l.text_start = sh(l.text_start);
+            l.text_end = sh(l.text_end);
+            l.line_end = sh(l.line_end);
+        }
+    }
+    r.lines += added;
+    r.text = text;
+    r.labels.insert("preprocessor-block-before-definition");
+    blocks
+}
